@@ -595,7 +595,11 @@ func (ex *Exec) timeNow() Value {
 	ex.nowCount++
 	sec := ex.newDraw(ex.occName("now"), 64)
 	lo := tb.Const(64, uint64(ex.NowBase))
-	hi := tb.Const(64, uint64(ex.NowBase+3600))
+	win := ex.sh.NowWindow
+	if win <= 0 {
+		win = 3600
+	}
+	hi := tb.Const(64, uint64(ex.NowBase+win))
 	c := tb.BAnd(tb.Cmp(term.OSle, lo, sec), tb.Cmp(term.OSle, sec, hi))
 	if ex.lastNow != nil {
 		c = tb.BAnd(c, tb.Cmp(term.OSle, ex.lastNow, sec))
@@ -847,4 +851,52 @@ func init() {
 	}
 	reg("sort.Slice", sortSlice)
 	reg("sort.SliceStable", sortSlice)
+}
+
+func init() {
+	reg(rtPkg+".SetUnexported", func(ex *Exec, caller *frame, fn *ssa.Function, args []Value) Value {
+		obj := args[0].(Iface)
+		path, _ := concStr(args[1].(Str))
+		val := args[2].(Iface)
+		pt, ok := obj.T.Underlying().(*types.Pointer)
+		if !ok {
+			panic(pathAbort{"engine", "SetUnexported: object is not a pointer"})
+		}
+		curT := pt.Elem()
+		curP := obj.V.(*Value)
+		names := strings.Split(path, ".")
+		for i, n := range names {
+			st, ok := curT.Underlying().(*types.Struct)
+			if !ok {
+				panic(pathAbort{"engine", "SetUnexported: not a struct at " + n})
+			}
+			idx := -1
+			for k := 0; k < st.NumFields(); k++ {
+				if st.Field(k).Name() == n {
+					idx = k
+				}
+			}
+			if idx < 0 {
+				panic(pathAbort{"engine", "SetUnexported: no field " + n})
+			}
+			cell := &(*curP).(Struct)[idx]
+			ft := st.Field(idx).Type()
+			if i == len(names)-1 {
+				*cell = copyVal(val.V)
+				return nil
+			}
+			if fp, isPtr := ft.Underlying().(*types.Pointer); isPtr {
+				p, _ := (*cell).(*Value)
+				if p == nil {
+					p = new(Value)
+					*p = ex.zero(fp.Elem())
+					*cell = p
+				}
+				curP, curT = p, fp.Elem()
+			} else {
+				curP, curT = cell, ft
+			}
+		}
+		return nil
+	})
 }
